@@ -1315,3 +1315,72 @@ class DescriptorProcessTransaction(FnCheck):
             ex.oblige(st, 'empty_transaction_keeps_mdib_version', z3.Not(nonempty))
         if 'c:proc' in st.ghost:
             ex.oblige(st, 'returns_the_transaction_result', st.box(outcome[1]) == Val.ref(st.ghost['c:proc']))
+
+
+@register
+class UpdateCorrespondingStateNotInTx(FnCheck):
+    id = 'C02.update_corresponding_state_copy'
+    prop = 'C02'
+    target = f'{TR}:DescriptorTransaction._update_corresponding_state'
+    field_types = {'DescriptorVersion': 'int', 'StateVersion': 'int', 'is_context_descriptor': 'bool'}
+    container_hints = {}
+    doc = ('_update_corresponding_state(descriptor) for a single-state descriptor whose state is NOT part of the '
+           'transaction: a COPY of the stored state is queued (old = stored state) with the DescriptorVersion of this '
+           'descriptor and StateVersion + 1; the stored state object itself is not written, so what the MDIB and earlier '
+           'readers hold keeps the content of its version until the commit replaces it (C03, C07)')
+
+    def setup(self, b):
+        st = b.st
+        self.dv = b.int('new_descriptor_version')
+        self.handle = b.str('handle')
+        self.descr = b.obj('descriptor', DescriptorVersion=self.dv, Handle=self.handle, is_context_descriptor=b.bool('is_context_descriptor'))
+        self.sv, self.sdv = b.int('stored_state_version'), b.int('stored_state_descriptor_version')
+        self.stored = b.obj('stored_state', StateVersion=self.sv, DescriptorVersion=self.sdv)
+        self.exists = b.bool('state_exists')
+        self.upd = b.obj('updates_dict')
+        st.assume(z3.Select(st.get_arr('C'), self.upd.e) == b.ex.ctx.builtin_class_ids['dict'])
+        st.assume(z3.Select(st.get_arr('DN'), self.upd.e) >= 0)
+        key = Val.str(self.handle.e)
+        st.assume(z3.Not(z3.Select(z3.Select(st.get_arr('DK'), self.upd.e), key)))
+        st.assume(z3.Not(Val.b(z3.Select(st.get_arr('f:is_context_descriptor'), self.descr.e))))
+        mdib = b.obj('mdib', states=b.obj('states', descriptor_handle=b.obj('states.descriptor_handle')))
+        self.o = b.obj('self', cls=(TR, 'DescriptorTransaction'), _mdib=mdib)
+        b.distinct(self.o, self.descr, self.stored, self.upd, mdib)
+        return self.o, [self.descr], {}
+
+    def callees(self, ex):
+        def item(ex_, st, args, kwargs):
+            o = st.alloc('TransactionItem')
+            st.write_field(o, 'old', args[0])
+            st.write_field(o, 'new', args[1])
+            return o
+        return {f'{TR}:DescriptorTransaction._get_states_update': Pure(lambda e, s, a, k: self.upd, name='_get_states_update'),
+                '*.get_one': Pure(lambda e, s, a, k: vany(z3.If(self.exists.e, Val.ref(self.stored.e), Val.none), maybe_none=True),
+                                  name='states.descriptor_handle.get_one(handle, allow_none=True) (C11)'),
+                'sdc11073.mdib.transactionsprotocol:TransactionItem': Pure(item, name='TransactionItem(old, new)'),
+                f'{TR}:TransactionItem': Pure(item, name='TransactionItem(old, new)'), 'TransactionItem': Pure(item, name='TransactionItem(old, new)')}
+
+    def hooks(self, ex):
+        return CopyHooks()
+
+    def post(self, ex, st0, st, outcome, b):
+        if outcome[0] == 'exc':
+            ex.oblige(st, 'never_raises', z3.BoolVal(False), info={'exc': repr(outcome[1])})
+            return
+        key = Val.str(self.handle.e)
+        dk, dv = z3.Select(st.get_arr('DK'), self.upd.e), z3.Select(st.get_arr('DV'), self.upd.e)
+        for f, v in (('StateVersion', self.sv), ('DescriptorVersion', self.sdv)):
+            ex.oblige(st, f'stored_state_{f}_not_written', Val.i(z3.Select(st.get_arr('f:' + f), self.stored.e)) == v.e)
+        ex.oblige(st, 'queued_iff_the_state_exists', z3.Select(dk, key) == self.exists.e)
+        copies = st.ghost.get('copies', ())
+        if copies:
+            c, src = copies[-1]
+            item = Val.oid(z3.Select(dv, key))
+            ex.oblige(st, 'a_copy_is_queued_with_the_stored_state_as_old', z3.Implies(self.exists.e, z3.And(
+                src == self.stored.e, z3.Select(st.get_arr('f:new'), item) == Val.ref(c), c != self.stored.e,
+                z3.Select(st.get_arr('f:old'), item) == Val.ref(self.stored.e))))
+            ex.oblige(st, 'copy_carries_new_versions', z3.Implies(self.exists.e, z3.And(
+                Val.i(z3.Select(st.get_arr('f:DescriptorVersion'), c)) == self.dv.e,
+                Val.i(z3.Select(st.get_arr('f:StateVersion'), c)) == self.sv.e + 1)))
+        else:
+            ex.oblige(st, 'a_copy_is_queued_with_the_stored_state_as_old', z3.Not(self.exists.e))
